@@ -95,6 +95,7 @@ class StoreSim:
         self.ops_done: list = []
         self.pending_reject: dict = {}   # sid -> info about a rejected add (for close/reopen codes)
         self.iters: dict = {}            # live iterators: id -> {it, sess, pos, done}
+        self.gc_lazy = False             # True: no collection between operations (garbage accumulates)
         self.fsfaults = None             # installed by the fault engine
         self._install_clock()
 
@@ -245,17 +246,34 @@ class StoreSim:
         rec = dict(op)
         rec.pop('res', None)
         journal.log(rec)
+        gc_k = rec.get('gc_k')
+        if gc_k:
+            # Seeded collector schedule: automatic collection is switched on for this operation only,
+            # with the young-generation threshold set so that the first collection happens after
+            # gc_k container allocations counted from the start of the operation - wherever that
+            # is, also inside extension-module code.
+            # (counted from the current young-generation count, so the trigger point does not
+            # depend on what was allocated before the operation)
+            gc.set_threshold(gc.get_count()[0] + int(gc_k), 3, 3)
+            gc.enable()
         try:
             res = fn(rec)
         except OracleFailure as of:
             of.v.setdefault('failing_op', rec)
             raise
+        finally:
+            if gc_k:
+                gc.disable()
+                gc.set_threshold(700, 10, 10)
         if res is None:
             return False
+        if gc_k:
+            self.faults['gc_inside_operation'] += 1
         rec['res'] = res
         self.clock += 1.0 + (self.step_no % 7) * 0.25
         self.ops_done.append(rec)
-        gc.collect()  # deterministic collection point (automatic collection is off)
+        if not self.gc_lazy:
+            gc.collect()  # deterministic collection point (automatic collection is off)
         self.trace.log(self.step_no, {k: v for k, v in rec.items() if k != 'traj'},
                        rec.get('traj', {}).get('cs') if isinstance(rec.get('traj'), dict) else None)
         self._check_len_all()
